@@ -299,6 +299,7 @@ func vsBitswapWorld(s *verifsim.Sim) {
 	vsSlowMu.Lock()
 	clear(vsSlow)
 	clear(vsStale)
+	clear(vsLive)
 	vsSlowMu.Unlock()
 	rng := mrand.New(mrand.NewPCG(uint64(s.Choose(1<<16, "data_seed")), 41))
 	w := []int{1, 2, 2, 4, 4, 8}[s.Choose(6, "ods_width")]
@@ -354,6 +355,7 @@ func vsBitswapWorld(s *verifsim.Sim) {
 		done   *verifsim.Task
 		// returned is set when Fetch has returned (its registry entries are deleted by then)
 		returned bool
+		roles    map[cid.Cid]string
 		err      error
 		viaGet   bool
 		smps     []shwap.Sample
@@ -363,7 +365,7 @@ func vsBitswapWorld(s *verifsim.Sim) {
 	var tasks []*fetchTask
 	hdr := verifhdr.MakeHeader(hA, time.Now(), sqA.Roots)
 	for ti := 0; ti < ntasks; ti++ {
-		ft := &fetchTask{name: fmt.Sprintf("fetch%d", ti)}
+		ft := &fetchTask{name: fmt.Sprintf("fetch%d", ti), roles: map[cid.Cid]string{}}
 		tctx, cancel := context.WithCancel(ctx)
 		ft.cancel = cancel
 		if s.Chance(1, 4, "via_getter_getsamples") {
@@ -382,7 +384,24 @@ func vsBitswapWorld(s *verifsim.Sim) {
 						s.ViolateP("C06", "c06-getter-panics", "bitswap.GetSamples", "bitswap Getter.GetSamples panicked with the %s wiring: %v", s.Cfg["fetcher_store"], r)
 					}
 				}()
+				// the getter's own fetch registers its identifiers too (without the yielding wrapper)
+				var mine []cid.Cid
+				for _, c := range ft.coords {
+					if b, err := NewEmptySampleBlock(hA, c, 2*w); err == nil {
+						mine = append(mine, b.CID())
+					}
+				}
+				vsSlowMu.Lock()
+				for _, c := range mine {
+					vsLive[c]++
+				}
+				vsSlowMu.Unlock()
 				ft.smps, ft.err = g.GetSamples(tctx, hdr, ft.coords)
+				vsSlowMu.Lock()
+				for _, c := range mine {
+					vsLive[c]--
+				}
+				vsSlowMu.Unlock()
 			})
 		} else {
 			// own copies of the requested blocks (the same CID may be fetched by several tasks)
@@ -407,10 +426,15 @@ func vsBitswapWorld(s *verifsim.Sim) {
 				for i, x := range ft.blks {
 					// a scheduling point inside fetch's registration loop (between looking a CID up in
 					// the registry and registering it), so that concurrent fetches interleave there
-					bl[i] = vsYieldingBlock{Block: x.blk, s: s, label: ft.name + " registers " + x.kind, returned: &ft.returned, cid: x.cid}
+					bl[i] = vsYieldingBlock{Block: x.blk, s: s, label: ft.name + " registers " + x.kind, returned: &ft.returned, cid: x.cid, registered: ft.roles}
 				}
 				ft.err = Fetch(tctx, ex, sqA.Roots, bl, WithFetcher(ex.NewSession(tctx)), WithStore(bstore))
 				ft.returned = true
+				vsSlowMu.Lock()
+				for c := range ft.roles {
+					vsLive[c]--
+				}
+				vsSlowMu.Unlock()
 				s.Note("%s: Fetch returned %v", ft.name, ft.err)
 			})
 		}
@@ -593,6 +617,22 @@ func vsBitswapWorld(s *verifsim.Sim) {
 		sig := "fetch"
 		if strings.HasPrefix(rejectReason, "no unmarshaller registered") {
 			sig = "duplicate fetch outlives the registering fetch"
+			// ... unless the fetch that is stuck registered the identifier itself and is still running:
+			// then somebody else deleted its registration
+			wanted := map[cid.Cid]bool{}
+			for _, c := range ex.wanted() {
+				wanted[c] = true
+			}
+			for _, ft := range tasks {
+				if ft.done.Done() || ft.roles == nil {
+					continue
+				}
+				for c, role := range ft.roles {
+					if wanted[c] && role == "original" {
+						sig = "a running fetch lost the registration it made"
+					}
+				}
+			}
 		}
 		s.ViolateP("C10", "c10-honest-delivery-does-not-fulfil", sig, "the honest block of a still wanted identifier is not accepted (%s); pending: %v", rejectReason, ex.wanted())
 		return
@@ -810,10 +850,24 @@ type vsYieldingBlock struct {
 	label    string
 	returned *bool // the fetch that owns this block has returned
 	cid      cid.Cid
+	// registered, if set, receives the role ("original" / "duplicate") this fetch got for the identifier
+	registered map[cid.Cid]string
 }
 
 func (b vsYieldingBlock) UnmarshalFn(r *share.AxisRoots) UnmarshalFn {
 	b.s.Yield(b.label)
+	if b.registered != nil {
+		// fetch calls this once per block while it registers it: the first live registrant of an
+		// identifier is the one whose verifier the hasher uses (the "original"), later ones are duplicates
+		vsSlowMu.Lock()
+		if vsLive[b.cid] == 0 {
+			b.registered[b.cid] = "original"
+		} else if _, ok := b.registered[b.cid]; !ok {
+			b.registered[b.cid] = "duplicate"
+		}
+		vsLive[b.cid]++
+		vsSlowMu.Unlock()
+	}
 	fn := b.Block.UnmarshalFn(r)
 	return func(data []byte, id []byte) error {
 		// a delivery marked slow parks here, inside the verification and with the entry lock held, so
@@ -841,4 +895,6 @@ var (
 	vsSlow   = map[uint64]bool{}
 	// vsStale: CIDs for which a delivery was accepted by the verifier of a fetch that had returned
 	vsStale = map[cid.Cid]bool{}
+	// vsLive: fetches that registered the identifier and have not returned
+	vsLive = map[cid.Cid]int{}
 )
